@@ -10,7 +10,9 @@ import (
 	"crypto/sha256"
 	"errors"
 	"fmt"
+	"go.dedis.ch/kyber/v4/group/mod"
 	"io"
+	"math/big"
 	"strings"
 
 	"go.dedis.ch/kyber/v4"
@@ -674,6 +676,29 @@ func runC04(t *core.Tape, tier string, info *core.RunInfo) *core.Violation {
 	for k := 0; k < 6; k++ {
 		cases = append(cases, t.Bytes("garbage", L))
 	}
+	var modulusOf *big.Int // set when the scalar type is group/mod.Int (most groups)
+	if !v.isPoint() {
+		if mi, ok := v.s.(*mod.Int); ok && mi.M != nil {
+			// the boundary of the range check: M itself, M+1 (refused), M-1 (valid), in the scalar's byte order.
+			// mod.Int.UnmarshalBinary documents: "Returns an error if ... the contents of the buffer
+			// represents an out-of-range integer."
+			modulusOf = mi.M.ToBigInt()
+			for _, d := range []int64{0, 1, -1} {
+				x := new(big.Int).Add(modulusOf, big.NewInt(d))
+				if x.BitLen() > 8*L {
+					continue
+				}
+				b := x.FillBytes(make([]byte, L))
+				if mi.BO == kyber.LittleEndian {
+					for i, j := 0, len(b)-1; i < j; i, j = i+1, j-1 {
+						b[i], b[j] = b[j], b[i]
+					}
+				}
+				cases = append(cases, b)
+			}
+			info.Faults["scalar-at-the-modulus"] += 3
+		}
+	}
 	if v.isPoint() {
 		nc := nonCanonical(gr, enc)
 		cases = append(cases, nc...)
@@ -709,6 +734,16 @@ func runC04(t *core.Tape, tier string, info *core.RunInfo) *core.Violation {
 		if v.isPoint() {
 			if _, vv := useAccepted(gr, get().(kyber.Point), b); vv != nil {
 				return vv
+			}
+		} else if modulusOf != nil && len(b) == L {
+			x := kit.CopyBytes(b)
+			if get().(kyber.Scalar).ByteOrder() == kyber.LittleEndian {
+				for i, j := 0, len(x)-1; i < j; i, j = i+1, j-1 {
+					x[i], x[j] = x[j], x[i]
+				}
+			}
+			if new(big.Int).SetBytes(x).Cmp(modulusOf) >= 0 {
+				return viol("C04", "range", "accepted-out-of-range-scalar/"+gr.name, "the %d-byte encoding %x (>= the modulus) was accepted as a scalar; mod.Int.UnmarshalBinary documents an error for out-of-range integers", L, b)
 			}
 		}
 	}
